@@ -60,7 +60,15 @@ def schedule(r):
         last = k == n_att
         if k > 1:
             evs.append("Retry %d %d" % (k - 1, k))
+        if a.get("badre") and last and r["class"] == "other":
+            # the requester has banned and disconnected the responder meanwhile: the send of this attempt fails
+            evs += ["Register %d" % k, "SendFail %d" % k]
+            continue
         evs += ["Register %d" % k, "Send %d" % k]
+        if a.get("badre"):
+            t = tid[0]
+            tid[0] += 1
+            evs += ["RespondBad %d (mkResp %d %d)" % (t, k, k * 10 + 5), "Drop %d" % t]
         in_time, late = [], []
         if f["wrong"]:
             in_time.append((9000 + k, "W"))
@@ -133,6 +141,10 @@ def shape(r):
 def evaluate(ck, recs, tag="calls", count=True):
     """Returns list of (record, code) for call records with code != 0, and batch failures."""
     calls = [r for r in recs if r["k"] == "call"]
+    for r in recs:
+        if r["k"] == "env":
+            SCALE[0] = max(1.0, float(r.get("scale", 1.0)))
+            ck.extra["load_scale"] = round(SCALE[0], 2)
     res = ck.coq_eval(IMPORTS, "c17_case", "check_call", [call_term(r) for r in calls], shard=40, tag=tag)
     bad = []
     if res is not None:
@@ -140,6 +152,9 @@ def evaluate(ck, recs, tag="calls", count=True):
             if count:
                 ck.count()
                 ck.nontrivial(shape(r))
+            if r.get("bkind") == "bad-responses":
+                # a response for a procedure nobody registered is dropped before the lookup: never delivered, whatever else happens
+                code = 2 if (r["class"] == "ok" or r.get("pay_kind") == "B") else (0 if code in (0, 2, 3) and r["class"] in ("timeout", "other") else code)
             if r["class"] == "ok" and truncated(r):
                 code = max(code, 2)  # truncated / altered payload
             if over_budget(r):
@@ -217,6 +232,9 @@ def report(ck, bad, badb):
         ck.failures.append(f)
 
 
+SCALE = [1.0]   # load factor reported by the harness (env record)
+
+
 def truncated(r):
     pa = r["plan"]["attempts"]
     a = pa[min(len(pa), max(1, r["attempts"])) - 1] if pa else {}
@@ -231,7 +249,7 @@ def over_budget(r):
     """The call took longer than (retries+1) timeouts plus generous slack (handler latencies, scheduling): timing-dependent."""
     n = len(r["plan"]["attempts"])
     lat = max([a.get("lat", 0) for a in r["plan"]["attempts"]] + [0])
-    return r["class"] != "hang" and r.get("elapsed_ms", 0) > r["plan"].get("start", 0) + n * r["timeout_ms"] + lat + 2500
+    return r["class"] != "hang" and r.get("elapsed_ms", 0) > r["plan"].get("start", 0) + n * r["timeout_ms"] + lat + 2500 * SCALE[0]
 
 
 def intrinsic(r):
@@ -239,6 +257,8 @@ def intrinsic(r):
     code that has the property (argued one by one in docs/C17.md), so seeing one once is a violation. None = timing-dependent."""
     if r.get("panic"):
         return "panic in the request path"
+    if r.get("bkind") == "bad-responses" and (r["class"] == "ok" or r.get("pay_kind") == "B"):
+        return "a response for a procedure without a registered handler was delivered"
     if r["class"] == "ok":
         if r["pay_call"] != r["plan"]["call"]:
             return "the caller received the payload produced for another call"
@@ -246,6 +266,10 @@ def intrinsic(r):
             return "a response carrying a different request ID was delivered"
         if truncated(r):
             return "truncated payload"
+    if have_stats(r) and r["plan"]["strict"] and r["class"] == "timeout" and r["attempts"] == len(r["plan"]["attempts"]) and \
+            all(plan_flags(a, r["timeout_ms"])["norm_in"] for a in r["plan"]["attempts"]) and not any(r["seen"]):
+        return ("every attempt was answered at once by the remote handler, yet none of the %d responses was ever decoded by the "
+                "requester's onResponse (seen=0 after quiescence): the replies are lost before the lookup" % r["attempts"])
     if have_stats(r):
         # (attempts are numbered by the responder in arrival order, which under load need not be the sending order: the clause
         # does not assume that the accepted attempt is the last one in that numbering)
@@ -282,7 +306,8 @@ def confirm(ck, binp, recs, bad, badb, rounds=2):
             for r in recs:
                 if r["k"] == "call" and r["batch"] in whole:
                     f.write(json.dumps(r) + "\n")
-        again = ck.run_harness(binp, ["-in", inp], out_name="confirm.jsonl")
+        # the re-run gets margins twice (then four times) as wide, on top of the load factor the harness measures itself
+        again = ck.run_harness(binp, ["-in", inp, "-rescale", str(2 << k)], out_name="confirm.jsonl")
         if again is None:
             break  # an unusable re-run never removes a failure
         recs = again
@@ -298,7 +323,7 @@ def confirm(ck, binp, recs, bad, badb, rounds=2):
 
 def stats_floor(ck, recs):
     """The acceptance statistics (oracle clause acc_ok) must be available for nearly all calls."""
-    calls = [r for r in recs if r["k"] == "call" and r["attempts"] >= 1 and r["class"] != "hang"]
+    calls = [r for r in recs if r["k"] == "call" and r["attempts"] >= 1 and r["class"] != "hang" and r.get("bkind") != "bad-responses"]
     ok = sum(1 for r in calls if have_stats(r))
     ck.extra["calls_with_acceptance_stats"] = "%d/%d" % (ok, len(calls))
     ck.obligations += 1
